@@ -9,7 +9,7 @@
 (*     here a literal is either already canonical or looked up in          *)
 (*     NumCanon, a table supplied by the model)                            *)
 (***************************************************************************)
-EXTENDS Tape
+EXTENDS Serializer
 
 CONSTANT NumCanon      \* function: non-canonical float literal |-> canonical text
 
